@@ -23,6 +23,7 @@ from easynetwork.lowlevel.api_async.transports.tls import AsyncTLSStreamTranspor
 from easynetwork.lowlevel.api_sync.transports import base_selector
 from easynetwork.lowlevel.api_sync.transports.socket import SSLStreamTransport
 
+from vlib import netutil  # noqa: E402
 from vlib import memtransport, tlspeer, vloop, vselect
 from vlib.runner import HangDetected, cpu_guard
 
@@ -220,16 +221,7 @@ class _SelShim:
 
 
 def _tcp_pair():
-    srv = socket.socket(socket.AF_INET, socket.SOCK_STREAM)
-    srv.bind(("127.0.0.1", 0))
-    srv.listen(1)
-    c = socket.socket(socket.AF_INET, socket.SOCK_STREAM)
-    c.connect(srv.getsockname())
-    s, _ = srv.accept()
-    srv.close()
-    for x in (c, s):
-        x.setsockopt(socket.IPPROTO_TCP, socket.TCP_NODELAY, 1)
-    return c, s
+    return netutil.tcp_pair()
 
 
 def sync_session(version: str, std: bool, lib_server: bool, reader: str, k: int | None, order: str = "peer-first", client: bool = False) -> dict:
